@@ -328,6 +328,11 @@ def valEmptyFree (lower : Bytes → Bytes) (schema : Schema) (d : Option C02.Val
 
 theorem valEmptyFree_of_emptyFree (lower : Bytes → Bytes) (cv : Conv) (schema : Schema) (d : C01.Doc)
     (h : emptyFree lower cv schema d) : valEmptyFree lower schema (some (idxDoc cv d)) := by
+  have hne : ∀ (cs : Bool) (b : Bytes), strNonEmpty lower cs (.str b) = true → C02.fold lower cs b ≠ [] := by
+    intro cs b hb
+    simp only [strNonEmpty, Bool.not_eq_true'] at hb
+    unfold C02.fold
+    intro he; rw [he] at hb; cases hb
   intro e he cs
   have := h e he
   refine ⟨fun hk b hb => ?_, fun hk b hb => ?_⟩
@@ -340,7 +345,7 @@ theorem valEmptyFree_of_emptyFree (lower : Bytes → Bytes) (cv : Conv) (schema 
       rw [hj] at hb this
       cases x <;> simp at hb
       subst hb
-      simpa [C02.fold] using this
+      exact hne cs _ this
   · rw [hk] at this
     simp only [strsAt] at hb
     cases hj : jsonAt (idxDoc cv d) e.1 with
@@ -352,7 +357,8 @@ theorem valEmptyFree_of_emptyFree (lower : Bytes → Bytes) (cv : Conv) (schema 
       obtain ⟨y, hy, hc⟩ := hb
       cases y <;> simp [C02.castStr] at hc
       rw [← hc]
-      simpa [C02.fold] using this _ hy
+      simp only [emptyFreeAt, List.all_eq_true] at this
+      exact hne cs _ (this _ hy)
 
 /-- **the verdict of the indexes, in the specification's words.**  If (on the file backend) no document of
 the stream holds a string folding to the empty key, the computed verdict says exactly: every previous and
